@@ -362,3 +362,10 @@ def pol_lazy(ctx):
 
 def policies(P):
     return {"collide": pol_collide, "complete": pol_complete, "greedy": pol_greedy, "lazy": pol_lazy}
+
+
+def key_score(P, S0):
+    """Workload hint (not an oracle): instances whose depot lies far from the customers make the shuttle policies
+    accumulate the largest distances / local times, i.e. they come closest to the declared observation bounds."""
+    xy = np.asarray(S0["nodes.coordinates"], np.float64)
+    return float(np.linalg.norm(xy[1:] - xy[0], axis=1).sum())
